@@ -634,6 +634,13 @@ func (fv *FV) applyContractCore(st *State, v ssa.Value, c *Contract, pkg *types.
 	}
 	post.freshBase = pre.wm
 	for _, e := range append(append([]*Clause{}, c.Ensures...), c.AssumedPost...) {
+		// a postcondition over the callee's own call records (lastcalled(F), lastarg(F, i), ...) says which calls
+		// the callee's body makes; read in the caller's state it would be about the caller's records (usually
+		// none: `false`, and everything after the call would be proved vacuously). It is proved for the body and
+		// tells the caller nothing.
+		if watchedRe.MatchString(e.Text) {
+			continue
+		}
 		t, err := fv.trySpec(post, e)
 		if err != nil {
 			fv.specErrs = append(fv.specErrs, fmt.Sprintf("%s: ensures of %s: %v", fv.relName, c.FuncName, err))
@@ -860,7 +867,13 @@ func (fv *FV) modItems(ctx *SpecCtx, clauses []*Clause) (items []modItem, err er
 			name := strings.TrimSpace(t[1:])
 			cv, ok := ctx.cellVars[name]
 			if !ok {
-				specFail("modifies %s: %s is not a captured variable", t, name)
+				// a local variable that lives in memory (its address is taken, or it is a struct):
+				// the one object allocated for it before the loop is rewritten on every iteration
+				if its, found := fv.localAllocItems(name); found {
+					items = append(items, its...)
+					continue
+				}
+				specFail("modifies %s: %s is not a captured variable or a local in memory", t, name)
 			}
 			elem := cv.ty.Underlying().(*types.Pointer).Elem()
 			f := fv.cellFam(elem)
@@ -905,4 +918,51 @@ func (fv *FV) modFieldExpr(ctx *SpecCtx, e ast.Expr) (modItem, error) {
 		}
 	}
 	return modItem{}, fmt.Errorf("modifies %s: no such field", exprString(e))
+}
+
+// localAllocItems: modifies items for the memory of the local variable `name` (an *ssa.Alloc
+// of this function that has been executed): every field of a struct, or the cell.
+func (fv *FV) localAllocItems(name string) ([]modItem, bool) {
+	var items []modItem
+	found := false
+	for _, b := range fv.fn.Blocks {
+		for _, ins := range b.Instrs {
+			a, ok := ins.(*ssa.Alloc)
+			if !ok || a.Comment != name {
+				continue
+			}
+			ref, ok := fv.vals[a]
+			if !ok {
+				// not allocated yet at this point: the object will be fresh for this loop
+				found = true
+				continue
+			}
+			elem := fv.derefType(a)
+			if stt, isSt := elem.Underlying().(*types.Struct); isSt {
+				var add func(ty types.Type, st *types.Struct, r string)
+				add = func(ty types.Type, st *types.Struct, r string) {
+					for i := 0; i < st.NumFields(); i++ {
+						if inner, isInner := st.Field(i).Type().Underlying().(*types.Struct); isInner {
+							add(st.Field(i).Type(), inner, fv.faRef(ty, i, r))
+							continue
+						}
+						f := fv.fieldFam(ty, i)
+						_, names := famParams(f)
+						items = append(items, modItem{fam: f, cond: eq(names[0], r), ref: r})
+					}
+				}
+				add(elem, stt, ref)
+				found = true
+				continue
+			}
+			if _, isArr := elem.Underlying().(*types.Array); isArr {
+				continue
+			}
+			f := fv.cellFam(elem)
+			_, names := famParams(f)
+			items = append(items, modItem{fam: f, cond: eq(names[0], ref), ref: ref})
+			found = true
+		}
+	}
+	return items, found
 }
